@@ -79,7 +79,7 @@ pub fn run(s: &dyn Subject, ctx: &Ctx) -> Option<DeclReport> {
         return None;
     }
     let mut rep = DeclReport::new("C01", spec);
-    let mut dom = domain(spec, ctx.tier, ctx.seed);
+    let mut dom = if ctx.sweep_slice_only.get() { vec![] } else { domain(spec, ctx.tier, ctx.seed) };
     if ctx.tier == Tier::Thorough && spec.has_tag("unicode_sweep") {
         dom.extend(string_unicode_sweep());
     }
@@ -112,20 +112,17 @@ pub fn run(s: &dyn Subject, ctx: &Ctx) -> Option<DeclReport> {
     }
     // f32 full sweep (thorough, selected declarations)
     if ctx.tier == Tier::Thorough && spec.has_tag("sweep32") && ctx.only_input.is_none() {
-        let mut bits: u32 = 0;
-        loop {
-            let raw = Value::F32(bits);
+        let (a, b) = ctx.sweep_range();
+        for bits in a..b {
+            let raw = Value::F32(bits as u32);
             let obs = s.ctor(&raw);
             check_one(s, ctx, &mut rep, &raw, &obs, "ctor");
-            if bits == u32::MAX {
-                break;
-            }
-            bits += 1;
         }
-        rep.exhaustive.push(("all 2^32 f32 bit patterns".into(), 1u64 << 32));
+        rep.exhaustive.push((format!("f32 bit patterns {a:#x}..{b:#x} (slice {}/{} of all 2^32)", ctx.part, ctx.parts), b - a));
     }
     // const-evaluated constructor results must agree with the run-time constructor and the oracle
-    for (raw, cobs) in s.const_results() {
+    let consts = if ctx.sweep_slice_only.get() { vec![] } else { s.const_results() };
+    for (raw, cobs) in consts {
         let robs = s.ctor(&raw);
         check_one(s, ctx, &mut rep, &raw, &cobs, "const");
         let same = match (&cobs, &robs) {
